@@ -20,8 +20,8 @@ _p("C11", "proof",
    [MATH, CPY, RE])
 
 _p("C19", "other",
-   "Deductive part: Rect.intersection/union/empty and the bounding-box glue are proved for all real inputs; the clip_to_viewbox call site "
-   "is checked as a static obligation on the real AST. The geometric claim itself (exact clipping, tight bounds) rests on the assumed pathops "
+   "Deductive part: Rect.intersection/union/empty and the bounding-box glue are proved for all real inputs; clip_to_viewbox is run on a tree model "
+   "(viewbox.clip: outside removed, inside left alone, straddling intersected with bbox INTERSECT viewBox under the right rules) and the CLI flag by cli.trace. The geometric claim itself (exact clipping, tight bounds) rests on the assumed pathops "
    "contract and is sampled by a bounded component (labelled bounded).",
    [PATHOPS, LXML, CPY])
 
@@ -53,13 +53,15 @@ _p("C18", "proof",
 _p("C20", "proof",
    "affine_between and _round are executed symbolically with _try_affine opaque and shown to return only matrices that _try_affine accepted for the "
    "two shapes at the caller's tolerance (or the identity for almost-equal shapes); almost_equals, _affine_callback (per command family), the "
-   "translation and identity cases are proved for symbolic coordinates. The arc case of _affine_callback is a recorded finding.",
+   "translation and identity cases are proved for symbolic coordinates. What is proved is the guarantee the code gives - every RELATIVE command within the "
+   "tolerance - plus the lemma that absolute positions then differ by at most k x tolerance after k commands; that the absolute outline can drift beyond the "
+   "tolerance (F21) and the arc case of _affine_callback (F8) are recorded findings.",
    [BRIDGE, CPY, MATH])
 
 _p("C04", "other",
    "Proved (all inputs): the stroke glue (name->engine constant tables, parameter binding, conics, simplify + documented fallback), dash-array parsing and "
-   "doubling, the opacity/paint/id bookkeeping of SVG._stroke with the stroke drawn above the fill, the tolerance, and the stroke-before-transform order in "
-   "_simplify (static). NOT decided by any contract within reach: the outline geometry itself (caps, joins, miter limit, dash phase, stroker resolution) "
+   "doubling, the opacity/paint/id bookkeeping of SVG._stroke with the stroke drawn above the fill, the tolerance, and - by running _simplify on a tree model (simplify.trace) - stroke in the "
+   "shape's own coordinates before the CTM is applied, stroke settings reset before writing back. NOT decided by any contract within reach: the outline geometry itself (caps, joins, miter limit, dash phase, stroker resolution) "
    "is Skia's stroker; a bounded component samples it on polylines (labelled bounded).",
    [PATHOPS, BRIDGE, CPY, LXML])
 
@@ -90,39 +92,45 @@ _p("C17", "other",
    [LXML, CPY, RE])
 
 _p("C14", "other",
-   "Static: the four strip steps precede every other step of topicosvg (partial order on the real AST), the parser drops comments / blank text, the strip "
-   "tag list is checked; proved: comments never count as children and an attribute-less wrapper group is always flattened pushing opacity 1 (C05 group "
+   "pipeline.trace (real topicosvg run with recorders): the four strip steps precede every other step for every option value; the parser options and the strip "
+   "tag list are checked; proved: comments never count as children and an attribute-less wrapper group is always flattened pushing opacity 1 (C05 group "
    "obligations). The metamorphic claim convert(N(D)) ~ convert(D) is the bounded part (labelled bounded).",
    [LXML, CPY])
 
 _p("C07", "other",
    "Proved: the per-shape rewrites are fixpoints on pico-form data (C09 rewrite obligations: absolute/expand/explicit-lines leave absolute, shorthand-free "
-   "commands unchanged; rounding is idempotent), normalize_opacity/_stroke bookkeeping; static: no shape-removing step after the last orphan-gradient sweep. "
+   "commands unchanged; rounding is idempotent), normalize_opacity/_stroke bookkeeping; pipeline.trace (real topicosvg run with recorders): no shape-removing step after the last orphan-gradient sweep. "
    "That _simplify is a fixpoint on a pico tree is NOT decided deductively; pass 1 vs pass 2 vs pass 3 byte comparison is the bounded part (labelled bounded).",
    [LXML, PATHOPS, CPY])
 _p("C08", "other",
-   "Static: orphan sweep ordering; proved: ids cleared when a stroked shape is split (C04). Unique ids / no dangling url / no unused gradient on whole "
+   "Proved on the call trace / tree model: orphan sweep ordering (pipeline.trace, simplify.trace), ids stripped from use instances (use.instance), fresh id for every gradient copy "
+   "(gradient.transformed), ids cleared when a stroked shape is split (C04). Unique ids / no dangling url / no unused gradient on whole "
    "documents is checked by a reference-graph oracle on sharing patterns (bounded, labelled).",
    [LXML, CPY])
 
 _p("C01", "other",
    "Proved: path-data target forms (absolute, no shorthand, no H/V, no arcs after arcs_to_cubics; Skia emits only M/L/Q/C/Z), kept-group attributes and "
-   "opacity range, stroke reset, nonzero marking, walk/printing; static: pipeline order, argument binding of ndigits / allow_text / drop_unsupported incl. the "
-   "CLI, gate raises on violations, root cleanup deletes every inheritable attribute. That the tree surgery of _simplify leaves exactly one defs of "
-   "gradients and only g/path is NOT decided deductively: an independent grammar oracle on generated documents x options is the bounded part.",
+   "opacity range, stroke reset, nonzero marking, walk/printing; by running the real topicosvg / _simplify / _run symbolically with recorders for the callees "
+   "(pipeline.trace, simplify.trace, cli.trace): pipeline order, binding of ndigits / allow_text / drop_unsupported incl. the CLI, gate raises on violations, root "
+   "cleanup, one master defs of gradients only, dissolved groups, no stroke / transform / clip-path left on written paths - for the tree shapes the contracts "
+   "enumerate, over a model of lxml. For arbitrary trees this is NOT decided deductively: an independent grammar oracle on generated documents x options is "
+   "the bounded part.",
    [LXML, PATHOPS, BRIDGE, CPY])
 _p("C02", "other",
-   "Proved: the affine algebra and viewport mapping (C11), shape->path outlines (C09), the pathops transform glue; the composition order at the call "
-   "sites (element CTM, use, nested svg) is checked on the real code over a tree model. The rendering equivalence of whole documents is the bounded part: "
+   "Proved: the affine algebra and viewport mapping (C11), shape->path outlines (C09), the pathops transform glue; the composition order (element CTM, use, nested svg "
+   "viewport, ancestors in _simplify) by running _resolve_use, _unnest_svg, _simplify on a tree model with symbolic matrices. The rendering equivalence of whole documents is the bounded part: "
    "an independent reference evaluator compares composited colours at sample points of generated structural documents.",
    [LXML, PATHOPS, CPY, MATH])
 _p("C03", "other",
-   "Proved relative to pathops: intersection/union glue folds operands each under its own rule (C13), clip intersection pairs the shape with its fill-rule "
-   "and clips with clip-rule (static), transform before clip (static). Whole-document clip semantics (ancestor stacks, nested clipPaths, use) is the bounded "
+   "Proved relative to pathops: intersection/union glue folds operands each under its own rule (C13), _resolve_clip_path and _simplify run on a tree model: clip "
+   "region = union of placed children intersected with the nested clip, clips accumulate along the ancestor chain each resolved with the CTM of its carrier, the "
+   "intersection pairs the path with its fill-rule and each clip with its clip-rule, transform before clip. Whole-document clip semantics (ancestor stacks, nested clipPaths, use) is the bounded "
    "part with the independent reference evaluator.",
    [LXML, PATHOPS, CPY])
 _p("C06", "other",
-   "Proved: translation decomposition and affine algebra (C11), as_user_space_units / gradient translation folding lemmas where built; whole-document "
+   "Proved: translation decomposition and affine algebra (C11), gradient attribute resolution (from_element), as_user_space_units, the href template chain, "
+   "_apply_gradient_translation against the contract of decompose_translation, _transformed_gradient (own transform -> bbox -> CTM, fresh id), and the order in "
+   "_simplify (copies derived before the sources are rounded); whole-document "
    "gradient colour equivalence at interior points is the bounded part with an independent gradient evaluator.",
    [LXML, PATHOPS, CPY, MATH])
 
